@@ -533,6 +533,11 @@ func (e *Exec) conversion(c *ast.CallExpr, to types.Type) Val {
 		sl := SliceV{base, "0", sx("strlen", sv.T), sx("strlen", sv.T)}
 		e.declareFun("bytes.src", []string{SInt}, SInt)
 		e.addFact(mkAnd(mkEq(sx("bytes.src", base), sv.T), sx(">=", sl.Len, "0")))
+		// contents: byte i of the new array is character i of the string
+		e.declareFun("strat", []string{SInt, SInt}, SInt)
+		key, srt := elemsKey(types.Typ[types.Byte])
+		row := mkSelect(e.heapGet(key, srt), base)
+		e.addFact(fmt.Sprintf("(forall ((i Int)) (! (=> (and (<= 0 i) (< i %s)) (= (select %s i) (strat %s i))) :pattern ((select %s i))))", sl.Len, row, sv.T, row))
 		return sl
 	case kt == kString && kf == kString, kt == kSlice && kf == kSlice:
 		return v
@@ -1098,8 +1103,13 @@ func (e *Exec) lockInvariant(c *ast.CallExpr, op string) {
 	env := &SpecEnv{cur: e.st, old: e.old, names: map[string]boundVar{inv.Params[0].Name: {owner, ot}}, pkg: e.g.pkgs[n.Obj().Pkg().Path()], sf: sf}
 	t := e.specBool(inv.Body, env)
 	if op == "Unlock" {
-		e.lockSeq++
-		e.oblige(fmt.Sprintf("lock-inv %s.%s@unlock#%d", n.Obj().Name(), fsel.Sel.Name, e.lockSeq), "assert", "monitor invariant re-established at Unlock: "+inv.Body.Text, t)
+		// numbered per lock, so that a new invariant on another lock does not rename these obligations
+		if e.lockSeqBy == nil {
+			e.lockSeqBy = map[string]int{}
+		}
+		lk := n.Obj().Name() + "." + fsel.Sel.Name
+		e.lockSeqBy[lk]++
+		e.oblige(fmt.Sprintf("lock-inv %s@unlock#%d", lk, e.lockSeqBy[lk]), "assert", "monitor invariant re-established at Unlock: "+inv.Body.Text, t)
 		return
 	}
 	e.assume(t)
